@@ -193,6 +193,10 @@ struct link : ll::link_layer< server_t, test::radio_with_2mbit, Options... >, ll
             << " sto=" << this->timeout_value_
             << " phy=" << unsigned( this->receiving_encoding_ ) << "/" << unsigned( this->transmiting_encoding_ )
             << " chg=" << ( this->state_ == base::state::connection_changed ? 1 : 0 );
+        if ( std::getenv( "INSTANTS_DEBUG" ) )   // where the deferred PDU and the receive ring's ends are
+            out << " dp=" << ( this->defered_ll_control_pdu_.buffer ? this->defered_ll_control_pdu_.buffer - this->receive_buffer() : -1 )
+                << " front=" << ( this->receive_buffer_.front_ - this->receive_buffer() )
+                << " end=" << ( this->receive_buffer_.end_ - this->receive_buffer() );
         return out.str();
     }
 };
